@@ -71,11 +71,21 @@ def run(ctx, prop, streams, what):
     from . import engine as E
     from . import families as F
     plan = PLAN.get(prop)
-    known_ids = {}
+    known_ids = {}      # case id -> [finding, ...]; a finding may name the guard it fails with (auto entries do)
     for k in ctx.known:
         if k.get("status", "open") == "open":
             for cid in k.get("case_ids", []):
-                known_ids[cid] = k
+                known_ids.setdefault(cid, []).append(k)
+
+    def known_for(cid, code):
+        """the listed finding for this failing case AND this guard (a listed case that now fails with a different
+        guard is a different violation and is reported)"""
+        g = EC.GUARDS.get(code, str(code))
+        for k in known_ids.get(cid, []):
+            kg = k.get("guard") or (k["id"].rsplit("-", 1)[-1] if k.get("auto") else None)
+            if kg is None or kg == g:
+                return k
+        return None
     info = dict(corpus=0, generated=0, rejected=0, known=0, version=None)
     # ---- (1) corpus
     E.install()
@@ -88,9 +98,10 @@ def run(ctx, prop, streams, what):
         if res.verdict != []:
             info["rejected"] += 1
             cid = fw.case_id(dict(corpus=name))
-            if cid in known_ids:
+            kf = known_for(cid, res.verdict[1])
+            if kf is not None:
                 info["known"] += 1
-                ctx.known_finding_seen(known_ids[cid])
+                ctx.known_finding_seen(kf)
             else:
                 ctx.violation("%s [corpus %s]: %s" % (what, name, EC.describe(res)),
                               dict(kind="engine-run", corpus=name, case=j["case"], guard=EC.GUARDS.get(res.verdict[1])))
@@ -107,9 +118,10 @@ def run(ctx, prop, streams, what):
             for case, verdict, descr, tail in fails:
                 info["rejected"] += 1
                 cid = case_key(prop, EC.unjson_case(case))
-                if cid in known_ids:
+                kf = known_for(cid, verdict[1])
+                if kf is not None:
                     info["known"] += 1
-                    ctx.known_finding_seen(known_ids[cid])
+                    ctx.known_finding_seen(kf)
                 else:
                     unknown.append((case, verdict, descr, tail))
             runner = getattr(F, "run_streamb_" + prop)
